@@ -89,6 +89,10 @@ struct World {
     retention_removals: u64,
     /// every path that was ever in the persisted pending-deletion list
     ever_persisted: BTreeSet<String>,
+    /// a cycle of this history ran with an injected failure (its compaction may have left objects nobody scheduled)
+    faulted: bool,
+    /// chunks that left the catalog during a cycle that ran to its end without an injected failure
+    left_in_full_cycle: BTreeSet<String>,
 }
 
 fn pin_set(k: u8) -> Vec<String> {
@@ -147,6 +151,8 @@ impl World {
             deletes_seen: 0,
             retention_removals: 0,
             ever_persisted: BTreeSet::new(),
+            faulted: false,
+            left_in_full_cycle: BTreeSet::new(),
         }
     }
 
@@ -202,6 +208,7 @@ impl World {
             }
             Op::Restart => self.restart().await,
             Op::CycleFault(k) => {
+                self.faulted = true;
                 use crate::engine::sched::Decision;
                 match k {
                     0 => self.rec.inject_failure("complete_compaction_with_target", Decision::FailBefore),
@@ -216,7 +223,16 @@ impl World {
             }
         }
         self.note_persisted().await;
-        self.judge().await
+        let before: BTreeSet<String> = self.unref_at.keys().cloned().collect();
+        let r = self.judge().await;
+        if *op == Op::Cycle {
+            for p in self.unref_at.keys() {
+                if !before.contains(p) {
+                    self.left_in_full_cycle.insert(p.clone());
+                }
+            }
+        }
+        r
     }
 
     /// judge every catalog change and every physical delete since the last call
@@ -322,6 +338,19 @@ impl World {
                 });
             }
         }
+        // fault-free histories: every chunk that left the catalog (compacted away, aged out) did so in a cycle that ran to its
+        // end, so its deletion was scheduled and has to survive the restart - however and whenever it is persisted
+        if !self.faulted {
+            let gone: Vec<String> = self.left_in_full_cycle.iter().filter(|p| self.unref_at.contains_key(*p)).cloned().collect();
+            for p in &gone {
+                if crate::engine::store::raw_get(&self.mem, p).await.is_some() {
+                    return Err(Fail {
+                        sig: "C09:scheduled-deletion-lost-by-a-restart".into(),
+                        msg: format!("{p} left the catalog in a cycle that ran to its end, but its file still exists after unpinning everything, restart + grace + one cycle (persisted list ever held: {persisted:?})"),
+                    });
+                }
+            }
+        }
         Ok(())
     }
 
@@ -332,7 +361,7 @@ impl World {
             v.sort();
             v
         };
-        hash_of(&(img, cat, &self.pinned_paths, self.envs.wall(), self.unref_at.iter().collect::<Vec<_>>()))
+        hash_of(&(img, cat, &self.pinned_paths, self.envs.wall(), self.unref_at.iter().collect::<Vec<_>>(), self.faulted, &self.left_in_full_cycle))
     }
 }
 
